@@ -110,6 +110,7 @@ type execInfo struct {
 
 func execute(c Case, info *execInfo) batch.Result {
 	dir := modDir(&c.Mod)
+	defer batch.LockModDir(dir)()
 	if err := c.Mod.Write(dir); err != nil {
 		return batch.Result{Infra: "writing module: " + err.Error()}
 	}
